@@ -29,8 +29,8 @@ FEATS = ['unconn_in', 'unconn_out', 'ff_no_d', 'out_read', 'wiring', 'consts']
 
 def plan(tier, seed):
     if tier == 'quick':
-        return [{'n': 600, 'max_gates': 60} for _ in range(15)] + [{'n': 30, 'max_gates': 300}]
-    return [{'n': 12000, 'max_gates': 60} for _ in range(12)] + [{'n': 700, 'max_gates': 300} for _ in range(4)]
+        return [{'n': 600, 'max_gates': 60} for _ in range(14)] + [{'n': 30, 'max_gates': 300}, {'corpus': True}]
+    return [{'n': 12000, 'max_gates': 60} for _ in range(12)] + [{'n': 700, 'max_gates': 300} for _ in range(3)] + [{'corpus': True, 'big': True}]
 
 
 def conclude(agg):
@@ -40,7 +40,7 @@ def conclude(agg):
         r.append(f'primitive x input-combination hit matrix incomplete: {c.get("allprims_combos", 0)} of {N_COMBOS}')
     if len(agg['sets'].get('prims', ())) < 33:
         r.append(f'only {len(agg["sets"].get("prims", ()))} of 33 primitives occurred in random circuits')
-    for k in ('lane_checks', 'internal_line_checks', 'cycle_checks', 'padding_cases', 'cases/c_reuse', 'cases/strip_forks', 'cases/style_b'):
+    for k in ('lane_checks', 'internal_line_checks', 'cycle_checks', 'padding_cases', 'cases/c_reuse', 'cases/strip_forks', 'cases/style_b', 'corpus_circuits'):
         if c.get(k, 0) == 0:
             r.append(f'monitor counter {k} is zero')
     return r
@@ -176,7 +176,60 @@ def check_case(case, ctx):
                 'stimulus': case['stim'], 'cycles': case['cycles']})
 
 
+def corpus(ctx, big):
+    """the shipped netlists through the real parsers + resolve, simulated under all option settings and compared with the
+    harness' own line-level evaluation of the parsed graph"""
+    import os
+    from .. import REPO
+    from kyupy import bench, verilog
+    from kyupy.logic_sim import LogicSim
+    from kyupy.techlib import SAED32, SAED90
+    tests = os.path.join(REPO, 'tests')
+    items = [('b01.bench', None, lambda: bench.load(os.path.join(tests, 'b01.bench'))),
+             ('b01.v', SAED90, lambda: verilog.load(os.path.join(tests, 'b01.v'), tlib=SAED90)),
+             ('gates.v', SAED90, lambda: verilog.load(os.path.join(tests, 'gates.v'), tlib=SAED90)),
+             ('rng_haltonBase2.synth_yosys.v', SAED90, lambda: verilog.load(os.path.join(tests, 'rng_haltonBase2.synth_yosys.v'), tlib=SAED90))]
+    if big:
+        items.append(('b15_2ig.v.gz', SAED32, lambda: verilog.load(os.path.join(tests, 'b15_2ig.v.gz'), tlib=SAED32, branchforks=True)))
+    n = 67
+    mask = lanes_mask(n)
+    for name, tlib, loader in items:
+        case = {'corpus': name}
+        with ctx.guard('simulation-raises', case):
+            c = loader()
+            if tlib is not None:
+                c.resolve_tlib_cells(tlib)
+            b, gt = G.extract(c)
+            r = random.Random(name)
+            assign = {nm: r.getrandbits(n) for kind, nm in b.s_order if kind != 'out'}
+            for strip in (False, True):
+                val = G.eval_lines(b, gt, assign, n, mode='bool', strip_forks=strip)
+                for reuse in (False, True):
+                    sim = LogicSim(c, sims=n, m=2, c_reuse=reuse, strip_forks=strip)
+                    nb = sim.s.shape[-1]
+                    for row, (kind, nm) in enumerate(b.s_order):
+                        if kind != 'out':
+                            sim.s[0, row, 0] = int_to_row(assign[nm], nb)
+                            sim.s[0, row, 1] = sim.s[0, row, 0]
+                    sim.s_to_c(); sim.c_prop(); sim.c_to_s()
+                    for row, (kind, nm) in enumerate(b.s_order):
+                        if kind == 'in':
+                            continue
+                        nd = c.s_nodes[row]
+                        e = val[nd.ins[0].index] if (len(nd.ins) > 0 and nd.ins[0] is not None) else 0
+                        got = row_to_int(sim.s[1, row, 0])
+                        ctx.count('corpus_lane_checks', n)
+                        if (got ^ e) & mask:
+                            ctx.violation('captured-value', f'{name} (reuse={reuse} strip={strip}): {kind} {nm} lanes {diff_lanes(got, e, n)} differ from the evaluation of the parsed netlist', case)
+                            break
+            ctx.count('corpus_circuits')
+        ctx.case(case, True, key=case)
+
+
 def run(spec, ctx):
+    if spec.get('corpus'):
+        corpus(ctx, spec.get('big', False))
+        return
     for i in range(spec['n']):
         rng = random.Random(f'C01/{spec["seed"]}/{spec["shard"]}/{i}')
         case = gen_case(rng, spec, i)
@@ -184,4 +237,7 @@ def run(spec, ctx):
 
 
 def replay(case, ctx):
-    check_case(case, ctx)
+    if case.get('corpus'):
+        corpus(ctx, case['corpus'].startswith('b15'))
+    else:
+        check_case(case, ctx)
